@@ -33,10 +33,21 @@ def run(rep, tier):
     from props import ctrl_obl
     from engine import E2
     e = E2(rep, tier)
-    sizes = [(4, 4), (5, 5), (6, 2), (1, 6)] if tier == "quick" else [(4, 4), (5, 5), (6, 2), (1, 6), (8, 3), (3, 8), (6, 4), (4, 6)]
+    sizes = [(4, 4), (5, 5), (6, 3), (2, 7), (1, 8)] if tier == "quick" else [(4, 4), (5, 5), (6, 3), (2, 7), (1, 8), (8, 3), (3, 8), (6, 4), (4, 6), (10, 2)]
     rep.bounds["(len f, len g)_mir"] = [list(x) for x in sizes]
-    ctrl_obl.c13_obligations(e, sizes, real=True)
     ctrl_obl.c13_obligations(e, [(2, 2)], real=False)
+    e.finish()
+    import parallel
+    parts = ["mg:%d:%d:%d" % (n, m, sub) for (n, m) in sorted(sizes, key=lambda t: -(t[0] + t[1])) for sub in (0, 1)]
+    parallel.run_parts(rep, tier, parts, mir_text=e.mir_text, sources=e.sources)
+
+
+def run_part(rep, tier, part):
+    from props import ctrl_obl
+    from engine import E2
+    _, n, m, sub = part.split(":")
+    e = E2(rep, tier)
+    ctrl_obl.c13_obligations(e, [(int(n), int(m))], real=True, ops=(sub == "1",))
     e.finish()
 
 
